@@ -7,6 +7,7 @@
 (*        known noPanic; "lists" (revalidation-list bookkeeping) is reported as drift only       *)
 (*   C18 (action properties, "op" events): noEviction fullKeeps removalCause succession         *)
 (*        recordVersion endpointClearsLive creditKept creditSpent creditExhausted staleIgnored   *)
+(*        newcomerQueued                                                                         *)
 (* The statement does not fix the rate at which failed checks consume credit (the pinned code    *)
 (* divides by 3): the judge demands that a passed check never costs credit, that a failed check  *)
 (* an entry survives costs credit, and that removals at failed checks are consistent with ONE    *)
@@ -70,6 +71,10 @@ Act(pre, post, o) ==
                          \/ /\ o.id \notin IdsOf(pre[b0].r)
                             /\ IdSeq(post[b0].r) = SubSeq(<<o.id>> \o IdSeq(pre[b0].r), 1,
                                                           IF Len(pre[b0].r) >= MR THEN MR ELSE Len(pre[b0].r) + 1),
+    \* a newcomer to a full bucket that is in neither list and whose address is under no /24 limit (LAN, net = -1) has no reason
+    \* to be turned away: it becomes the first replacement, also when the list is already full (sweep mutant C/17-C18)
+    newcomerQueued |-> (IsAdd(o) /\ o.id # 0 /\ o.net = -1 /\ Len(pre[b0].e) >= BS /\ o.id \notin IdsOf(pre[b0].e) /\ o.id \notin IdsOf(pre[b0].r)) =>
+                          (Len(post[b0].r) >= 1 /\ post[b0].r[1].id = o.id),
     removalCause |-> \A b \in 0..(NB - 1) : \A n \in Removed(b) :
                         \/ o.name = "delete" /\ o.id = n
                         \/ o.name = "reval" /\ o.id = n /\ ~o.alive
